@@ -27,6 +27,10 @@ type globalMaxInflight struct {
 
 	lock           sync.RWMutex
 	instanceStates map[string]*instanceState
+
+	// stateLock serializes SetState: the request id check, the per-instance count,
+	// the running total and the removal of an instance must change together
+	stateLock sync.Mutex
 }
 
 type instanceState struct {
@@ -65,6 +69,9 @@ func (f *globalMaxInflight) add(n int32) int32 {
 }
 
 func (f *globalMaxInflight) SetState(instance string, requestId int64, current int32) (bool, int32, error) {
+	f.stateLock.Lock()
+	defer f.stateLock.Unlock()
+
 	f.lock.RLock()
 	state, ok := f.instanceStates[instance]
 	f.lock.RUnlock()
@@ -103,7 +110,8 @@ func (f *globalMaxInflight) SetState(instance string, requestId int64, current i
 	delta := current - old
 	overflowed := f.add(delta)
 
-	if overflowed > 0 {
+	if overflowed > 0 && delta > 0 {
+		// only an increase is refused; a lower count is always recorded
 		atomic.AddInt32(&state.count, -delta)
 		f.add(-delta)
 		return false, old, nil
